@@ -669,6 +669,10 @@ def make_jobs(ck, rng):
                 jobs.append({"planner": planner, "obj": "len", "field": 0, "thr": t, "env": envs[j], "dim": dim, "seed": r.range(1, 10 ** 6),
                              "evals": evals, "solves": r.choice([2, 2, 3]) if j != 1 else r.choice([1, 2]), "gthr": f2bits(gthr)})
             if general:
+                # a state-cost integral (cost noticeably above the length) with a threshold between typical
+                # lengths and typical costs: separates "satisfied by the stored cost" from "by the length"
+                jobs.append({"planner": planner, "obj": "sci", "field": 1, "thr": f2bits(r.choice([1.7, 1.8, 1.9, 2.0])), "env": r.choice([0, 1, 4]),
+                             "dim": 2, "seed": r.range(1, 10 ** 6), "evals": max(evals // 2, 800), "solves": 2, "gthr": g_small})
                 kinds = [r.choice(OBJ_KINDS_RUN)] if ck.tier == "quick" else OBJ_KINDS_RUN
                 for kind in kinds:
                     thr = r.choice(["def", "def", "inf", f2bits(r.choice([0.05, 0.2, 1.0, 2.0, 4.0]))])
